@@ -216,6 +216,16 @@ func checkC39(p *Prog, r *Report) {
 				}
 			}
 			okk = hasDot
+			// the name is built from the file of this outer iteration, not carried over from the previous profile
+			carried := false
+			for x := range backSlice(callCommon(profRead).Args[2], SliceOpts{}) {
+				if ph, ok := x.(*ssa.Phi); ok && ph.Block() == inner.header {
+					if bt, ok := ph.Type().Underlying().(*types.Basic); ok && bt.Info()&types.IsString != 0 {
+						carried = true
+					}
+				}
+			}
+			r.check(!carried, rule, fn.Name()+": each profile file is named after the base file", p.pos(profRead.Pos()), fnName(fn), "<file>.<profile> is built from the file of the current outer iteration", "the profile file name is accumulated across the loop over profiles (<file>.<p1>.<p2>): only the first of several profiles has its file read, the others' are looked for under a name that does not exist and silently skipped")
 		}
 		r.check(okk, rule, fn.Name()+": base file is read before <file>.<profile>", p.pos(fn.Pos()), fnName(fn), "the base read precedes the profile loop, which reads filename + \".\" + profile", "the profile file is not read right after (and named after) the file it belongs to")
 	}
